@@ -17,6 +17,16 @@ NoF5 == AllFixes \ {"F5"}
 NoF6 == AllFixes \ {"F6"}
 NoF7 == AllFixes \ {"F7"}
 
+\* directed deviation classes (one per defect found in the pinned code)
+KD1 == {"pts.partial"}
+KD2 == {"acc.self"}
+KD3a == {"rev.badid", "rev.self"}
+KD3b == {"acc.silent", "rev.member"}
+KD4 == {"sh.bad", "sh.absent"}
+KD5 == {"sh.bad", "acc.member"}
+KD6 == {"dup", "rev.member"}
+KD7 == {"pts.partial", "acc.member"}
+
 \* corrupt sets
 Corrupt3 == {{3}}
 Corrupt3any == {{}, {1}, {2}, {3}}
